@@ -105,7 +105,7 @@ func (o OptSpec) mode() string {
 
 // Case is the universal, serialisable test case.
 type Case struct {
-	Prop string `json:"prop"`
+	Prop  string `json:"prop"`
 	Gen   string `json:"gen,omitempty"`   // generator family (information only)
 	VMode string `json:"vmode,omitempty"` // value generator mode (information only)
 
@@ -130,7 +130,7 @@ type Case struct {
 	// C12
 	Block int `json:"block,omitempty"`
 	// C07
-	Ver  Hex `json:"ver,omitempty"`
+	Ver  Hex   `json:"ver,omitempty"`
 	Cuts []int `json:"cuts,omitempty"`
 	// C15 / C16 carry their own small payloads
 	Ints  []int64 `json:"ints,omitempty"`
